@@ -555,9 +555,13 @@ def point_checks(name, mod, num, i, p, par, geo, lam, tol, obs, note):
             sc = abs(want)
         elif fn == "Z_terms":
             got = np.array([at(q, i) for q in num["Z_terms"]])
+            # F and dtZ are proportional to betaP = Amp (1 - sin(k z)),
+            # whose float64 evaluation has condition number 2/(1 - sin)
+            cnd = 2.0 / max(1.0 - math.sin(float(mod.k) * p[3]), 1e-16)
             sc = np.maximum(np.abs(want), 1e-300)
-            # F, Z are O(Amp); dtZ compared relative to Z/t
-            sc[2] = max(abs(want[2]), abs(want[1]) / t)
+            sc[0] *= cnd
+            sc[1] = max(sc[1], sc[0])
+            sc[2] = max(abs(want[2]) * cnd, abs(want[1]) / t)
         elif fn == "alpha":
             got = at(num["alpha"], i)
             sc = max(abs(want), 1.0)
@@ -670,7 +674,9 @@ def point_checks(name, mod, num, i, p, par, geo, lam, tol, obs, note):
         want = _mp_eval(build_extra(name, "dtZ"), p, par)[0]
         got = float(at(num["Z_terms"][2], i))
         Zv = float(at(num["Z_terms"][1], i))
-        grade(note, "dtZ", abs(got - want), max(abs(want), abs(Zv) / t),
+        cnd = 2.0 / max(1.0 - math.sin(float(mod.k) * p[3]), 1e-16)
+        grade(note, "dtZ", abs(got - want),
+              max(abs(want) * cnd, abs(Zv) / t),
               dict(obs, module=got, dZ_dt=want), tol=1e-11)
     if name == "Rosquist_Jantzen":
         Tm = np.asarray(at(num["Tdown4"], i), float)
